@@ -1065,7 +1065,8 @@ class Node:
             return
 
         # a name that is not even valid text cannot be a realm served here
-        realm_name = message.destination_realm.decode(errors="replace").lower()
+        # (folded as bytes: ASCII letters only)
+        realm_name = message.destination_realm.lower().decode(errors="replace")
         if realm_name not in self._peer_routes:
             self.logger.warning(
                 f"{conn} realm {realm_name} not served by this node "
@@ -1471,7 +1472,7 @@ class Node:
         answer.acct_application_id = list(self.acct_application_ids)
 
         # a name that is not even valid text cannot be one of our peers
-        cer_origin_host = message.origin_host.decode(errors="replace").lower()
+        cer_origin_host = message.origin_host.lower().decode(errors="replace")
 
         if cer_origin_host not in self.peers:
             self.logger.warning(
@@ -1810,7 +1811,9 @@ class Node:
                     dest_realm = avp.payload
                     break
         if dest_realm is not None:
-            realm_name = dest_realm.decode().lower()
+            # folded as bytes, i.e. ASCII letters only; a name that is not
+            # even valid text is not one of our realms
+            realm_name = dest_realm.lower().decode(errors="replace")
 
         peer_list = None
         if realm_name in self._peer_routes:
